@@ -554,3 +554,6 @@ def check_trigger(case, nodes, obs, ntr):
         viol.append(("stray-setvalue", str(others)))
     nt = len(X["path"]) != len(T["path"]) or bool(repeat_ancestors(nodes, X["i"]))
     return {"outcome": "trigger-ok", "nt": nt and not viol, "viol": viol, "tr": ntr}
+
+# as-built additions of the seventh wave (reported with the bound in the evidence)
+BOUND = {k: v + "; seventh wave: " + 'trigger cells with blanks around the reference, cell cleaning off' for k, v in BOUND.items()}
